@@ -19,6 +19,7 @@
 #include <chrono>
 #include <condition_variable>
 #include <fstream>
+#include <stdexcept>
 #include <functional>
 #include <map>
 #include <memory>
@@ -102,8 +103,33 @@ static void hook(int point, const char* name) {
   std::unique_lock<std::mutex> lk(G);
   park(lk, *ws[my_tid], point);
 }
+// directed scenarios (tags R and X): a factory that loads the name it is asked for itself (allowed: the load mutex
+// is recursive), and one that throws
+static thread_local int t_depth = 0;
+static thread_local time_zone t_nested;
+static thread_local bool t_nested_ok = false;
+static std::atomic<int> g_x_inside(0), g_x_overlap(0), g_x_wait(0);
 static std::unique_ptr<ZoneInfoSource> Factory(
     const std::string& name, const std::function<std::unique_ptr<ZoneInfoSource>(const std::string&)>&) {
+  {
+    std::string b0 = base_of(name);
+    if (b0.compare(0, 2, "re") == 0) {          // re-entrant: reA = both get data, reB = the outer call gets none
+      if (t_depth == 0) {
+        t_depth = 1;
+        t_nested_ok = load_time_zone(name, &t_nested);
+        t_depth = 0;
+        if (b0.compare(0, 3, "reB") == 0) return nullptr;
+      }
+      return std::unique_ptr<ZoneInfoSource>(new MemSource(g_good));
+    }
+    if (b0.compare(0, 3, "thr") == 0) throw std::runtime_error("factory failure");
+    if (b0.compare(0, 2, "xs") == 0) {          // slow factories of scenario X: is anybody else inside?
+      if (g_x_inside.fetch_add(1) != 0) g_x_overlap = 1;
+      for (int i = 0; i < 300 && g_x_wait.load(); ++i) std::this_thread::sleep_for(std::chrono::milliseconds(1));
+      g_x_inside.fetch_sub(1);
+      return std::unique_ptr<ZoneInfoSource>(new MemSource(g_good));
+    }
+  }
   {
     std::unique_lock<std::mutex> lk(G);
     int t = my_tid;
@@ -439,6 +465,43 @@ int main(int argc, char** argv) {
       g_log_stress = false;
       fprintf(g_out, "{\"e\":\"SEnd\"}\n");
       ++beh;
+    } else if (tag == "R") {
+      // a factory that re-enters load_time_zone for the very name it was asked for: the value it obtained inside, the
+      // value the outer call returns and every later load must be one and the same
+      drain(K);
+      g_controlled = false;
+      long k; is >> k;
+      for (const char* var : {"reA", "reB"}) {
+        std::string n = "L" + std::to_string(9000000 + k) + "/" + var;
+        time_zone outer, again;
+        bool ok1 = load_time_zone(n, &outer);
+        bool ok2 = load_time_zone(n, &again);
+        int same = (ok1 && ok2 && t_nested_ok && outer == t_nested && again == outer) ? 1 : 0;
+        fprintf(g_out, "{\"e\":\"Reentrant\",\"variant\":\"%s\",\"same\":%d}\n", var, same);
+      }
+    } else if (tag == "X") {
+      // a factory that throws: the exception reaches the caller; afterwards the loader must still serialise the
+      // factory calls of that thread with those of others
+      drain(K);
+      g_controlled = false;
+      long k; is >> k;
+      int threw = 0;
+      g_x_overlap = 0;
+      std::thread a([&]() {
+        time_zone tz;
+        try { load_time_zone("L" + std::to_string(9100000 + k) + "/thr", &tz); } catch (const std::exception&) { threw = 1; }
+        g_x_wait = 1;
+        load_time_zone("L" + std::to_string(9100000 + k) + "/xsA", &tz);
+      });
+      std::thread b([&]() {
+        time_zone tz;
+        while (!g_x_wait.load() || g_x_inside.load() == 0) std::this_thread::yield();
+        load_time_zone("L" + std::to_string(9100000 + k) + "/xsB", &tz);
+        g_x_wait = 0;
+      });
+      a.join(); b.join();
+      g_x_wait = 0;
+      fprintf(g_out, "{\"e\":\"AfterThrow\",\"threw\":%d,\"overlap\":%d}\n", threw, g_x_overlap.load());
     } else if (tag == "H") {
       // shared-value hammer: nth threads use ONE loaded zone value concurrently, each thread staying in its own
       // neighbourhood of the time line (so that the zone's internal lookup shortcuts keep being invalidated by
@@ -474,6 +537,42 @@ int main(int argc, char** argv) {
         ops = done.load(); badn = bad.load();
       }
       fprintf(g_out, "{\"e\":\"SHammer\",\"threads\":%d,\"ops\":%ld,\"bad\":%ld}\n", nth, ops, badn);
+      // the same for zones backed by the C library ("libc:" names): their own single-threaded answers are the reference
+      {
+        time_zone lz[2];
+        bool lok[2] = {load_time_zone("libc:UTC", &lz[0]), load_time_zone("libc:localtime", &lz[1])};
+        long lops = 0, lbad = 0;
+        if (lok[0] && lok[1]) {
+          std::vector<int64_t> ts;
+          vt::Rng rr(7);
+          for (int i = 0; i < 48; ++i) ts.push_back(rr.range(-2000000000LL, 4000000000LL));
+          std::vector<civil_second> ref[2];
+          std::vector<int> roff[2];
+          for (int z = 0; z < 2; ++z)
+            for (int64_t t : ts) { auto al = lz[z].lookup(std::chrono::time_point<std::chrono::system_clock, seconds>(seconds(t))); ref[z].push_back(al.cs); roff[z].push_back(al.offset); }
+          std::atomic<int> go2(0);
+          std::atomic<long> bad2(0), done2(0);
+          std::vector<std::thread> th2;
+          for (int i = 0; i < nth; ++i) {
+            th2.emplace_back([&, i]() {
+              while (!go2.load()) std::this_thread::yield();
+              long lb = 0;
+              int n2 = iters / 4;
+              for (int j = 0; j < n2; ++j) {
+                int z = (i + j) & 1;
+                size_t k = (size_t)(i * 5 + j) % ts.size();
+                auto al = lz[z].lookup(std::chrono::time_point<std::chrono::system_clock, seconds>(seconds(ts[k])));
+                if (al.cs != ref[z][k] || al.offset != roff[z][k]) ++lb;
+              }
+              bad2 += lb; done2 += n2;
+            });
+          }
+          go2.store(1);
+          for (auto& th : th2) th.join();
+          lops = done2.load(); lbad = bad2.load();
+        }
+        fprintf(g_out, "{\"e\":\"SHammer\",\"threads\":%d,\"ops\":%ld,\"bad\":%ld,\"libc\":1}\n", nth, lops, lbad);
+      }
     } else if (tag == "TW") {
       int nth; is >> nth;
       std::unique_lock<std::mutex> lk(G);
